@@ -524,10 +524,28 @@ def r15(src, counts):
     return ''.join(out)
 
 
+def r21(src, counts):
+    """`RECV.as_ref().map(|v| BODY)` / `RECV.as_mut().map(|v| BODY)` -> `(match RECV.as_ref() { Some(v) => Some(BODY),
+    None => None })`: the definition of `Option::map` inlined, so that no closure postcondition is needed (an
+    un-annotated closure tells the verifier nothing about its result).  Dropped: the call through `Option::map`."""
+    m = mask(src)
+    out = []
+    last = 0
+    for mo in re.finditer(r'((?:self|\w+)(?:\.\w+)*)\.as_(ref|mut)\(\)\.map\(\|(\w+)\|\s*', m):
+        ob = m.index('(', mo.start() + len(mo.group(1)) + len('.as_ref()'))
+        cb = match_close(m, ob, '(', ')')
+        out.append(src[last:mo.start()])
+        out.append('(match %s.as_%s() { Some(%s) => Some(%s), None => None })' % (mo.group(1), mo.group(2), mo.group(3), src[mo.end():cb]))
+        last = cb + 1
+        counts['R21.option_map_closure'] += 1
+    out.append(src[last:])
+    return ''.join(out)
+
+
 def extract_file(path, modpath):
     """Return (rewritten_source, counts)."""
     counts = Counter()
     src = open(path).read()
-    for rule in (r1, r2, r3, r4, r5, r6, r7, r8, r9, r10, r11, r12, r13, r16, r17, r18, r19, r20, r15):
+    for rule in (r1, r2, r3, r4, r5, r6, r7, r8, r9, r10, r11, r12, r13, r16, r17, r18, r19, r20, r21, r15):
         src = rule(src, counts)
     return src, counts
